@@ -1,7 +1,14 @@
 package props
 
 import (
+	"fmt"
+	"go/token"
+	"strings"
+
+	"golang.org/x/tools/go/ssa"
+
 	"utilcheck/flow"
+	"utilcheck/lang"
 )
 
 func init() {
@@ -20,14 +27,197 @@ func init() {
 }
 
 func runC10(e *Env) {
-	pg := e.Fn("C10.case", "roman", "parseGroup")
-	if pg != nil {
-		e.Flow(func(c *flow.Ctx) { c.RuleCaseClosure(pg, 0, "MDCLXVImdclxvi") })
+	ruleC10Lang(e)
+	ruleC10Same(e)
+	// the value function(s): in-repo callees of the parser that receive an element of the sub-match slice
+	if dp := e.Fn("C10.case", "roman", "DefaultParser"); dp != nil {
+		alphabet := romanAlphabet(e)
+		seen := map[*ssa.Function]bool{}
+		for _, call := range e.C.Calls(dp, flow.InRepo) {
+			callee := e.C.StaticCallee(&call.Call)
+			for ai, a := range call.Call.Args {
+				u, ok := a.(*ssa.UnOp)
+				if !ok {
+					continue
+				}
+				ia, ok := u.X.(*ssa.IndexAddr)
+				if !ok {
+					continue
+				}
+				if m, ok := ia.X.(*ssa.Call); ok && m.Call.StaticCallee() != nil && strings.HasPrefix(m.Call.StaticCallee().String(), "(*regexp.Regexp).FindSubmatch") && !seen[callee] {
+					seen[callee] = true
+					idx := ai
+					e.Flow(func(c *flow.Ctx) { c.RuleCaseClosure(callee, idx, alphabet) })
+				}
+			}
+		}
 	}
 	e.S.Floor("C10.case", 1)
 	ruleErrZero(e, "C10.errzero", "roman")
 	ruleWrap(e, "C10.wrap", "roman")
 	ruleLimit(e, "C10.limit", "roman")
+	ruleTyped(e, "C10.typed", "roman")
+	e.S.Floor("C10.typed", 1)
 	e.S.Floor("C10.errzero", 3)
 	e.S.Floor("C10.limit", 4)
+}
+
+// romanReference builds the documented numeral language from the statement: any number of M, then a hundreds,
+// tens and units group, each additive (optional five-symbol, up to four one-symbols) or subtractive (four / nine
+// form); case-insensitive, written with explicit two-case classes.
+func romanReference() string {
+	cls := func(c byte) string { return "[" + string(c) + string(c|0x20) + "]" }
+	group := func(one, five, ten byte) string {
+		return `(?:` + cls(five) + `?` + cls(one) + `{0,4}|` + cls(one) + cls(five) + `|` + cls(one) + cls(ten) + `)`
+	}
+	return `^` + cls('M') + `*` + group('C', 'D', 'M') + group('X', 'L', 'C') + group('I', 'V', 'X') + `$`
+}
+
+func ruleC10Lang(e *Env) {
+	const rule = "C10.lang"
+	pat, ok := e.pattern(rule, "roman", "pattern")
+	if !ok {
+		return
+	}
+	sp, ds, err := lang.Build(pat, romanReference(), `^[MDCLXVImdclxvi]*$`)
+	if err != nil {
+		e.S.Unk(rule, "roman.pattern", "automaton", "language not decidable by the supported subset: "+err.Error(), "")
+		return
+	}
+	e.langEqual(rule, "roman.pattern", "language", sp, ds[0], ds[1], "roman.pattern", "documented numerals (statement-built reference)")
+	e.langSubset(rule, "roman.pattern", "alphabet", sp, ds[0], ds[2], "roman.pattern", "[MDCLXVImdclxvi]*")
+	if n, err := lang.NumCap(pat); err != nil || n != 4 {
+		e.S.Bad(rule, "roman.pattern", "captures", fmt.Sprintf("pattern must have 4 capture groups (thousands, hundreds, tens, units), has %d", n), "", "")
+	} else {
+		e.S.Ok(rule, "roman.pattern", "captures", "4 capture groups", "")
+	}
+}
+
+// ruleC10Same: Valid and DefaultParser accept the same set: both call checkInputLength first and match the same
+// pattern global; after a successful match the parser has no error return.
+func ruleC10Same(e *Env) {
+	const rule = "C10.same"
+	dp := e.Fn(rule, "roman", "DefaultParser")
+	va := e.Fn(rule, "roman", "Valid")
+	if dp == nil || va == nil {
+		return
+	}
+	type info struct {
+		guard  *ssa.Function
+		global *ssa.Global
+		call   *ssa.Call
+	}
+	get := func(fn *ssa.Function) (info, bool) {
+		var in info
+		for _, call := range e.C.Calls(fn, func(f *ssa.Function) bool { return true }) {
+			callee := e.C.StaticCallee(&call.Call)
+			if flow.InRepo(callee) && in.guard == nil && len(call.Call.Args) >= 2 && call.Call.Args[1] == ssa.Value(fn.Params[0]) {
+				in.guard = callee
+			}
+			if strings.HasPrefix(callee.String(), "(*regexp.Regexp).") {
+				if in.call != nil {
+					return in, false
+				}
+				in.call = call
+				in.global = flow.GlobalLoad(call.Call.Args[0])
+			}
+		}
+		return in, in.guard != nil && in.global != nil
+	}
+	a, ok1 := get(dp)
+	b, ok2 := get(va)
+	if !ok1 || !ok2 {
+		e.S.Unk(rule, "roman.DefaultParser/Valid", "shape", "could not identify the length guard helper and the single regexp call in both functions", "")
+		return
+	}
+	if a.guard == b.guard {
+		e.S.Ok(rule, "roman.DefaultParser/Valid", "guard", "both call "+flow.FnName(a.guard)+" on the input first", "")
+	} else {
+		e.S.Bad(rule, "roman.DefaultParser/Valid", "guard", "Valid and DefaultParser use different length/empty guards: "+flow.FnName(b.guard)+" vs "+flow.FnName(a.guard), "", "")
+	}
+	if a.global == b.global {
+		e.S.Ok(rule, "roman.DefaultParser/Valid", "pattern", "both match against roman."+a.global.Name(), "")
+	} else {
+		e.S.Bad(rule, "roman.DefaultParser/Valid", "pattern", "Valid matches "+b.global.Name()+" but the parser matches "+a.global.Name(), "", "")
+	}
+	// the regexp subject is the whole input in both
+	for _, x := range []struct {
+		fn *ssa.Function
+		in info
+	}{{dp, a}, {va, b}} {
+		subj := x.in.call.Call.Args[1]
+		if flow.RootParam(subj) == x.fn.Params[0] && !flow.HasSliceOnPath(subj) {
+			e.S.Ok(rule, flow.FnName(x.fn), "subject", "the whole input is matched", "")
+		} else {
+			e.S.Bad(rule, flow.FnName(x.fn), "subject", "the regexp is applied to something other than the whole input", e.posOf(x.in.call), "")
+		}
+	}
+	// after the match test, the parser has no further error return
+	okBlk := matchOKBlock(a.call)
+	if okBlk == nil {
+		e.S.Unk(rule, flow.FnName(dp), "post-match", "match result is not tested in the recognised form (len(p) == 0 / p == nil)", e.posOf(a.call))
+		return
+	}
+	bad := false
+	for _, r := range flow.Returns(dp) {
+		if (okBlk == r.Block() || okBlk.Dominates(r.Block())) && !flow.IsNilConst(r.Results[len(r.Results)-1]) {
+			e.S.Bad(rule, flow.FnName(dp), "post-match", "the parser can still fail after the pattern matched: Valid and the parser accept different sets", e.posOf(r), "")
+			bad = true
+		}
+	}
+	if !bad {
+		e.S.Ok(rule, flow.FnName(dp), "post-match", "no error return after a successful match", "")
+	}
+}
+
+// matchOKBlock returns the block entered when the FindSubmatch result is non-empty.
+func matchOKBlock(call *ssa.Call) *ssa.BasicBlock {
+	for _, r := range *call.Referrers() {
+		var cmp *ssa.BinOp
+		switch x := r.(type) {
+		case *ssa.Call: // len(p)
+			if bi, ok := x.Call.Value.(*ssa.Builtin); ok && bi.Name() == "len" {
+				for _, r2 := range *x.Referrers() {
+					if bo, ok := r2.(*ssa.BinOp); ok {
+						cmp = bo
+					}
+				}
+			}
+		case *ssa.BinOp:
+			cmp = x
+		}
+		if cmp == nil {
+			continue
+		}
+		for _, r3 := range *cmp.Referrers() {
+			iff, ok := r3.(*ssa.If)
+			if !ok {
+				continue
+			}
+			switch cmp.Op {
+			case token.EQL:
+				return iff.Block().Succs[1]
+			case token.NEQ, token.GTR:
+				return iff.Block().Succs[0]
+			}
+		}
+	}
+	return nil
+}
+
+// romanAlphabet returns the ASCII letters that occur in words of roman.pattern (from its automaton).
+func romanAlphabet(e *Env) string {
+	g := e.P.Var("roman", "pattern")
+	if g == nil {
+		return ""
+	}
+	pat, ok := e.C.PatternOfGlobal(g)
+	if !ok {
+		return ""
+	}
+	sp, ds, err := lang.Build(pat)
+	if err != nil {
+		return ""
+	}
+	return sp.Alphabet(ds[0])
 }
